@@ -617,13 +617,45 @@ def _guard_form(tree):
                             body[k:k + 1] = [g] + st.body
                             continue
             k += 1
+        # while True: ...; if c: break; ...   followed by   return X   at the end of a function: the break IS the return
+        if tail == 'func' and len(body) >= 1:
+            li = len(body) - 2 if (len(body) >= 2 and isinstance(body[-1], ast.Return)) else (len(body) - 1 if body else -1)
+            lp = body[li] if li >= 0 else None
+            rv_st = body[-1] if (len(body) >= 2 and li == len(body) - 2) else None
+            if isinstance(lp, ast.While) and isinstance(lp.test, ast.Constant) and lp.test.value is True and not lp.orelse \
+                    and (rv_st is None or rv_st.value is None or isinstance(rv_st.value, (ast.Name, ast.Constant))):
+                def own_breaks(stmts, out):
+                    for s_ in stmts:
+                        if isinstance(s_, ast.Break):
+                            out.append(s_)
+                        if isinstance(s_, (ast.For, ast.AsyncFor, ast.While, ast.FunctionDef, ast.AsyncFunctionDef, ast.ClassDef)):
+                            continue
+                        for fld_ in ('body', 'orelse', 'finalbody'):
+                            sub_ = getattr(s_, fld_, None)
+                            if isinstance(sub_, list) and sub_ and isinstance(sub_[0], ast.stmt):
+                                own_breaks(sub_, out)
+                        for h_ in getattr(s_, 'handlers', []) or []:
+                            own_breaks(h_.body, out)
+                    return out
+                brks = own_breaks(lp.body, [])
+                in_finally = any(isinstance(x, ast.Try) and x.finalbody for x in ast.walk(lp))
+                if brks and not in_finally:
+                    class B(ast.NodeTransformer):
+                        def visit_Break(self, n):
+                            if any(n is b_ for b_ in brks):
+                                return ast.copy_location(ast.Return(value=fast_copy(rv_st.value) if rv_st is not None and rv_st.value is not None else None), n)
+                            return n
+
+                        def visit_For(self, n):
+                            return n
+                        visit_While = visit_AsyncFor = visit_FunctionDef = visit_AsyncFunctionDef = visit_For
+                    lp.body = [B().visit(s_) for s_ in lp.body]
+                    if rv_st is not None:
+                        body.pop()      # nothing falls out of the loop any more
         for k, st in enumerate(body):
             lastp = k == len(body) - 1
             if isinstance(st, (ast.FunctionDef, ast.AsyncFunctionDef)):
-                if not any(isinstance(x, (ast.Yield, ast.YieldFrom)) for x in _own_walk(st)):
-                    fix(st.body, 'func')
-                else:
-                    fix(st.body, None)
+                fix(st.body, 'func')          # (a generator's bare `return` ends it just the same)
             elif isinstance(st, ast.ClassDef):
                 fix(st.body, None)
             elif isinstance(st, (ast.For, ast.AsyncFor, ast.While)):
@@ -853,8 +885,31 @@ def _reverse_then_iterate(fn):
                 k += 1
 
 
+def _list_spellings(tree):
+    """N19: del x[a:b]  ->  x[a:b] = []   and, for a plain local,  x.extend(y)  ->  x += y   (one spelling of each list idiom)"""
+    for parent in ast.walk(tree):
+        for fld in ('body', 'orelse', 'finalbody'):
+            body = getattr(parent, fld, None)
+            if not (isinstance(body, list) and body and isinstance(body[0], ast.stmt)):
+                continue
+            for k, st in enumerate(body):
+                if isinstance(st, ast.Delete) and len(st.targets) == 1 and isinstance(st.targets[0], ast.Subscript) \
+                        and isinstance(st.targets[0].slice, ast.Slice) and st.targets[0].slice.step is None:
+                    t = st.targets[0]
+                    t.ctx = ast.Store()
+                    body[k] = ast.copy_location(ast.Assign(targets=[t], value=ast.copy_location(ast.List(elts=[], ctx=ast.Load()), st)), st)
+                elif isinstance(st, ast.Expr) and isinstance(st.value, ast.Call) and isinstance(st.value.func, ast.Attribute) \
+                        and st.value.func.attr == 'extend' and isinstance(st.value.func.value, ast.Name) and len(st.value.args) == 1 \
+                        and not st.value.keywords and not isinstance(st.value.args[0], (ast.Starred, ast.GeneratorExp)):
+                    body[k] = ast.copy_location(ast.AugAssign(target=ast.Name(id=st.value.func.value.id, ctx=ast.Store()), op=ast.Add(),
+                                                              value=st.value.args[0]), st)
+                    ast.fix_missing_locations(body[k])
+    return tree
+
+
 def normalize(tree, relpath=None):
     _unannotate(tree)
+    _list_spellings(tree)
     _split_tuple_assign(tree)
     if relpath is not None and not os.environ.get('VERIF_NO_REFNORM'):
         _inline_new_constants(tree, relpath)
